@@ -8,14 +8,17 @@ CHECKS="$@"
 OUT=/verif/seeded/$ID
 mkdir -p $OUT
 cd $WT || exit 2
-git diff -- flowdyn > $OUT/patch.diff
+# source of truth: the patch file (the agent's, or the one already stored); `git stash` is SHARED between worktrees, so it is
+# never used here (parallel evaluations popped each other's stashes once)
+if [ -s $WT/patch.diff ]; then cp $WT/patch.diff $OUT/patch.diff; fi
 [ -s $OUT/patch.diff ] || { echo "empty patch"; exit 2; }
+git checkout -q -- flowdyn && git apply $OUT/patch.diff || { echo "cannot apply patch"; exit 2; }
 DEMO=$(ls demo_*.py | head -1)
 cp $DEMO $OUT/
 PYTHONPATH=$WT MPLBACKEND=Agg /venv/bin/python $DEMO > $OUT/demo_with.log 2>&1; RC_WITH=$?
-git stash -q
+git apply -R $OUT/patch.diff
 PYTHONPATH=$WT MPLBACKEND=Agg /venv/bin/python $DEMO > $OUT/demo_without.log 2>&1; RC_WITHOUT=$?
-git stash pop -q
+git apply $OUT/patch.diff
 echo "demo with patch: rc=$RC_WITH ; without: rc=$RC_WITHOUT"
 (cd $WT && PYTHONPATH=$WT MPLBACKEND=Agg timeout 1500 /venv/bin/python -m pytest -q -p no:cacheprovider -x tests 2>&1 | tail -1) > $OUT/suite.log
 echo "suite with patch: $(cat $OUT/suite.log)"
